@@ -33,7 +33,7 @@ def bounds(tier):
                 "easy": [[0, 0], [1, 0], [0, 1], [2, 3], [3, 3], [5, 0], [0, 5]], "grids": ["irregular", "dyadic", "uint", "int8", "symmetric"]}
     return {"tie_free_max": [6, 6], "all_types_max": [4, 4],
             "easy": [[0, 0], [1, 0], [0, 1], [2, 3], [3, 3], [5, 0], [0, 5], [1, 7], [7, 2]],
-            "grids": ["irregular", "dyadic", "int", "uint", "int8", "int16", "symmetric", "ulp_pow2"]}
+            "grids": ["irregular", "dyadic", "int", "uint", "int8", "int16", "symmetric"]}
 
 
 def work(tier, seed):
